@@ -345,6 +345,8 @@ Section Refinement.
   Variable format_alloc : nat -> nat -> nat.
   Variable rem_count : Z -> Z -> Z -> Z.
   Variable rem_checks : bool.
+  Variable assign_self_safe : bool.
+  Variable concat_self_safe : bool.
   (* what the proofs need from the C text: every realloc leaves room for the terminator,
      String_Rem moves the tail behind the match (with its terminator) and checks for NULL *)
   Hypothesis Hassign : forall vl, vl + 1 <= assign_alloc vl.
@@ -353,9 +355,14 @@ Section Refinement.
   Hypothesis Hformat : forall pos size, pos + size + 1 <= format_alloc pos size.
   Hypothesis Hrem : forall hl pl nl, rem_count hl pl nl = (pl - nl + 1)%Z.
   Hypothesis Hchk : rem_checks = true.
+  (* needed only for assign(s, s) / concat(s, s): the argument is read after the realloc *)
+  Hypothesis Hasafe : assign_self_safe = true.
+  Hypothesis Hcsafe : concat_self_safe = true.
 
-  Notation step := (m_step assign_alloc concat_alloc resize_alloc format_alloc rem_count rem_checks).
-  Notation run := (m_run assign_alloc concat_alloc resize_alloc format_alloc rem_count rem_checks).
+  Notation step := (m_step assign_alloc concat_alloc resize_alloc format_alloc rem_count rem_checks
+                           assign_self_safe concat_self_safe).
+  Notation run := (m_run assign_alloc concat_alloc resize_alloc format_alloc rem_count rem_checks
+                         assign_self_safe concat_self_safe).
 
   Lemma assign_refines b v : nulfree v -> exists b', m_assign assign_alloc b v = Some b' /\ repr b' v.
   Proof.
@@ -367,18 +374,71 @@ Section Refinement.
     - rewrite app_length, HL. cbn [length]. apply Hassign.
   Qed.
 
+  (* holds for both shapes of String_Concat (strcat, or memcpy at the old length) *)
   Lemma concat_refines b s v : repr b s -> nulfree v ->
-    exists b', m_concat concat_alloc b v = Some b' /\ repr b' (s ++ v).
+    exists b', m_concat concat_alloc concat_self_safe b v = Some b' /\ repr b' (s ++ v).
   Proof.
-    intros Hr Hv. unfold m_concat. rewrite (repr_c_strlen _ _ Hr).
+    clear Hcsafe. intros Hr Hv. unfold m_concat. rewrite (repr_c_strlen _ _ Hr).
     destruct Hr as [Hs [t ->]].
     destruct (realloc_repr s t (concat_alloc (length s) (length v))) as [t' [E L]].
     { pose proof (Hconcat (length s) (length v)). lia. }
     rewrite E.
     assert (R : repr (map Some s ++ Some 0 :: t') s) by (split; [assumption|eexists; reflexivity]).
-    rewrite (repr_c_strlen _ _ R). rewrite write_after.
-    - eexists. split; [reflexivity|]. apply repr_build; assumption.
-    - rewrite app_length. cbn [length]. pose proof (Hconcat (length s) (length v)). lia.
+    rewrite (repr_c_strlen _ _ R).
+    assert (W : write (map Some s ++ Some 0 :: t') (length s) (v ++ [0])
+                = Some (map Some s ++ map Some (v ++ [0]) ++ skipn (length (v ++ [0])) (Some 0 :: t'))).
+    { apply write_after. rewrite app_length. cbn [length]. pose proof (Hconcat (length s) (length v)). lia. }
+    destruct concat_self_safe; rewrite W; (eexists; split; [reflexivity|]; apply repr_build; assumption).
+  Qed.
+
+  Lemma memmove_id (b : list (option nat)) cnt : cnt <= length b -> memmove b 0 0 cnt = Some b.
+  Proof.
+    intros H. unfold memmove. cbn [Nat.add].
+    destruct (Nat.leb_spec cnt (length b)) as [_|]; [|lia]. cbn [andb firstn skipn app].
+    rewrite firstn_skipn. reflexivity.
+  Qed.
+
+  Lemma memmove_dup (A rest : list (option nat)) : length A <= length rest ->
+    memmove (A ++ rest) (length A) 0 (length A) = Some (A ++ A ++ skipn (length A) rest).
+  Proof.
+    intros H. unfold memmove. rewrite app_length. cbn [Nat.add skipn].
+    destruct (Nat.leb_spec (length A) (length A + length rest)) as [_|]; [|lia].
+    destruct (Nat.leb_spec (length A + length A) (length A + length rest)) as [_|]; [|lia].
+    cbn [andb]. f_equal.
+    rewrite firstn_app, Nat.sub_diag, firstn_all. cbn [firstn]. rewrite app_nil_r.
+    f_equal. f_equal. rewrite skipn_app. rewrite (skipn_all2 A) by lia. cbn [app]. f_equal. lia.
+  Qed.
+
+  (* assign(s, s): the value is unchanged *)
+  Lemma assign_self_refines b s : repr b s ->
+    exists b', m_assign_self assign_alloc assign_self_safe b = Some b' /\ repr b' s.
+  Proof.
+    intros Hr. unfold m_assign_self. rewrite Hasafe, (repr_c_strlen _ _ Hr).
+    destruct Hr as [Hs [t ->]].
+    destruct (realloc_repr s t (assign_alloc (length s))) as [t' [E L]].
+    { pose proof (Hassign (length s)). lia. }
+    rewrite E, memmove_id.
+    - eexists. split; [reflexivity|]. split; [assumption|eexists; reflexivity].
+    - rewrite app_length, map_length. cbn [length]. lia.
+  Qed.
+
+  (* concat(s, s): the value is doubled *)
+  Lemma concat_self_refines b s : repr b s ->
+    exists b', m_concat_self concat_alloc concat_self_safe b = Some b' /\ repr b' (s ++ s).
+  Proof.
+    intros Hr. unfold m_concat_self. rewrite Hcsafe, (repr_c_strlen _ _ Hr).
+    destruct Hr as [Hs [t ->]].
+    destruct (realloc_repr s t (concat_alloc (length s) (length s))) as [t' [E L]].
+    { pose proof (Hconcat (length s) (length s)). lia. }
+    rewrite E. pose proof (Hconcat (length s) (length s)) as HN.
+    rewrite <- (map_length (@Some nat) s).
+    rewrite memmove_dup by (cbn [length]; rewrite map_length in *; lia).
+    rewrite app_assoc, <- map_app.
+    replace (length (map Some s) + length (map Some s)) with (length (s ++ s))
+      by (rewrite app_length, map_length; reflexivity).
+    rewrite write_after.
+    - eexists. split; [reflexivity|]. apply repr_build0. apply nulfree_app; assumption.
+    - rewrite skipn_length, map_length. cbn [length]. lia.
   Qed.
 
   Lemma resize_refines b s n : repr b s ->
@@ -478,7 +538,7 @@ Section Refinement.
     exists b', step b o = (b', snd (spec_step s o)) /\ repr b' (fst (spec_step s o)).
   Proof.
     intros Hr Hok. pose proof (repr_c_str _ _ Hr) as Hc.
-    destruct o as [v|v|v|n|v|v|v|v| | | |pos ps]; cbn [m_step spec_step fst snd op_ok] in *.
+    destruct o as [v|v|v|n|v|v|v|v| | | |pos ps| | | | | | ]; cbn [m_step spec_step fst snd op_ok] in *.
     - destruct (assign_refines b v Hok) as [b' [E R]]. rewrite E. exists b'. split; [reflexivity|exact R].
     - destruct (concat_refines b s v Hr Hok) as [b' [E R]]. rewrite E. exists b'. split; [reflexivity|exact R].
     - destruct (concat_refines b s v Hr Hok) as [b' [E R]]. rewrite E. exists b'. split; [reflexivity|exact R].
@@ -497,6 +557,21 @@ Section Refinement.
     - exists b. unfold obs. rewrite Hc. split; [reflexivity|exact Hr].
     - exists b. unfold obs. rewrite Hc. split; [reflexivity|exact Hr].
     - destruct (print_refines ps b s pos Hr Hok) as [b' [E R]]. rewrite E. exists b'. split; [reflexivity|exact R].
+    - destruct (assign_self_refines b s Hr) as [b' [E R]]. rewrite E. exists b'. split; [reflexivity|exact R].
+    - destruct (concat_self_refines b s Hr) as [b' [E R]]. rewrite E. exists b'. split; [reflexivity|exact R].
+    - rewrite Hc. pose proof (rem_refines b s s Hr (proj1 Hr)) as H.
+      assert (E0 : first_occ s s = Some 0).
+      { apply first_occ_some. split; [exists [], []; rewrite app_nil_r; split; reflexivity|intros j Hj; lia]. }
+      rewrite E0 in H. destruct H as [b' [E R]]. exists b'. split; [exact E|].
+      cbn [firstn Nat.add app] in R. rewrite skipn_all in R. exact R.
+    - exists b. unfold obs. rewrite Hc. split; [|exact Hr]. cbn [fst snd].
+      rewrite find_sub_first_occ.
+      replace (first_occ s s) with (Some 0); [reflexivity|]. symmetry.
+      apply first_occ_some. split; [exists [], []; rewrite app_nil_r; split; reflexivity|intros j Hj; lia].
+    - exists b. unfold obs. rewrite Hc. split; [|exact Hr]. cbn [fst snd].
+      replace (str_compare s s) with Eq by (symmetry; apply str_compare_eq; reflexivity). reflexivity.
+    - exists b. unfold obs. rewrite Hc. split; [|exact Hr]. cbn [fst snd].
+      replace (str_compare s s) with Eq by (symmetry; apply str_compare_eq; reflexivity). reflexivity.
   Qed.
 
   Lemma spec_step_no_crash s o : snd (spec_step s o) <> SCrash.
@@ -585,9 +660,11 @@ From CelloV Require Import Generated.
 
 Definition c_new := m_new string_assign_alloc.
 Definition c_step := m_step string_assign_alloc string_concat_alloc string_resize_alloc
-                            string_format_alloc string_rem_count string_rem_checks.
+                            string_format_alloc string_rem_count string_rem_checks
+                            string_assign_self_safe string_concat_self_safe.
 Definition c_run := m_run string_assign_alloc string_concat_alloc string_resize_alloc
-                          string_format_alloc string_rem_count string_rem_checks.
+                          string_format_alloc string_rem_count string_rem_checks
+                          string_assign_self_safe string_concat_self_safe.
 
 (* the rules re-extracted from src/String.c (Generated.v) are the ones the proofs need *)
 Lemma gen_assign : forall vl, vl + 1 <= string_assign_alloc vl.
@@ -604,17 +681,21 @@ Lemma gen_rem : forall hl pl nl, string_rem_count hl pl nl = (pl - nl + 1)%Z.
 Proof. intros. unfold string_rem_count. lia. Qed.
 Lemma gen_chk : string_rem_checks = true.
 Proof. reflexivity. Qed.
+Lemma gen_asafe : string_assign_self_safe = true.
+Proof. reflexivity. Qed.
+Lemma gen_csafe : string_concat_self_safe = true.
+Proof. reflexivity. Qed.
 
 Theorem c_step_refines b s o : repr b s -> op_ok o ->
   exists b', c_step b o = (b', snd (spec_step s o)) /\ repr b' (fst (spec_step s o)).
-Proof. exact (step_refines _ _ _ _ _ _ gen_assign gen_concat gen_resize gen_format gen_rem gen_chk b s o). Qed.
+Proof. exact (step_refines _ _ _ _ _ _ _ _ gen_assign gen_concat gen_resize gen_format gen_rem gen_chk gen_asafe gen_csafe b s o). Qed.
 
 Theorem c_history_refines v0 ops : nulfree v0 -> Forall op_ok ops ->
   exists b0 bf, c_new v0 = Some b0 /\ c_run b0 ops = (fst (spec_run v0 ops), bf) /\
                 repr bf (snd (spec_run v0 ops)).
 Proof.
   intros Hv Hok. destruct (new_refines _ gen_assign v0 Hv) as [b0 [E R]].
-  destruct (run_refines _ _ _ _ _ _ gen_assign gen_concat gen_resize gen_format gen_rem gen_chk ops b0 v0 R Hok)
+  destruct (run_refines _ _ _ _ _ _ _ _ gen_assign gen_concat gen_resize gen_format gen_rem gen_chk gen_asafe gen_csafe ops b0 v0 R Hok)
     as [bf [Er Rf]].
   exists b0, bf. split; [exact E|]. split; [exact Er|exact Rf].
 Qed.
@@ -623,8 +704,32 @@ Theorem c_history_no_crash v0 ops : nulfree v0 -> Forall op_ok ops ->
   exists b0, c_new v0 = Some b0 /\ ~ In SCrash (fst (c_run b0 ops)).
 Proof.
   intros Hv Hok. destruct (new_refines _ gen_assign v0 Hv) as [b0 [E R]]. exists b0. split; [exact E|].
-  exact (run_no_crash _ _ _ _ _ _ gen_assign gen_concat gen_resize gen_format gen_rem gen_chk ops b0 v0 R Hok).
+  exact (run_no_crash _ _ _ _ _ _ _ _ gen_assign gen_concat gen_resize gen_format gen_rem gen_chk gen_asafe gen_csafe ops b0 v0 R Hok).
 Qed.
 
 Theorem repr_iff_c_str b s : repr b s <-> c_str b = Some s.
 Proof. split; [apply repr_c_str|apply c_str_inv]. Qed.
+
+(* the String itself as an argument behaves like any other argument with the same value *)
+Theorem self_ops_by_value (s : list nat) :
+  spec_step s OAssignSelf = spec_step s (OAssign s) /\
+  spec_step s OConcatSelf = spec_step s (OConcat s) /\
+  spec_step s ORemSelf = spec_step s (ORem s) /\
+  spec_step s OMemSelf = spec_step s (OMem s) /\
+  spec_step s OCmpSelf = spec_step s (OCmp s) /\
+  spec_step s OEqSelf = spec_step s (OEq s).
+Proof.
+  assert (E0 : first_occ s s = Some 0).
+  { apply first_occ_some. split; [exists [], []; rewrite app_nil_r; split; reflexivity|intros j Hj; lia]. }
+  cbn [spec_step]. repeat split.
+  - rewrite E0. cbn [firstn Nat.add app]. rewrite skipn_all. reflexivity.
+  - rewrite existsb_find. fold (first_occ s s). rewrite E0. reflexivity.
+  - replace (str_compare s s) with Eq by (symmetry; apply str_compare_eq; reflexivity). reflexivity.
+  - destruct (list_eq_dec Nat.eq_dec s s); [reflexivity|contradiction].
+Qed.
+
+(* before the repairs: strcpy from a pointer fetched before the realloc, strcat(val, val) —
+   undefined behaviour in the model (use after realloc / overlapping copy) for every state *)
+Theorem self_argument_old_shapes_undefined (b : list (option nat)) (fa : nat -> nat) (fc : nat -> nat -> nat) :
+  m_assign_self fa false b = None /\ m_concat_self fc false b = None.
+Proof. split; reflexivity. Qed.
